@@ -8,7 +8,8 @@ A history is a list of completed operations with call / return stamps from one m
 whatever the search returns is re-validated by `validLin`, so soundness (`linCheck_sound`) does not
 depend on the search strategy.  The search is WGL-style: operations that are minimal in the real-time
 order and legal in the current state are candidates; non-mutating ones are taken greedily (always safe),
-mutating ones are branch points, tried in the order suggested by an optional hint (the commit order seen
+mutating ones (and deletes that returned success, which may or may not have removed something) are
+branch points, tried in the order suggested by an optional hint (the commit order seen
 by an observer watch).  A node budget keeps the driver total and fast on non-linearizable input.
 -/
 import CV.Res
@@ -59,6 +60,15 @@ def legal : Rows → List HOp → Bool
     let (st', r, _) := specStep st o.op
     r == o.res && legal st' os
 
+/-- the run of a sequence of calls from `st`: each call with its result and committed event -/
+def trace : Rows → List HCall → List (HCall × HRet × Option WEv)
+  | _, [] => []
+  | st, c :: cs => (c, (specStep st c).2.1, (specStep st c).2.2) :: trace (specStep st c).1 cs
+
+def finalRows : Rows → List HCall → Rows
+  | st, [] => st
+  | st, c :: cs => finalRows (specStep st c).1 cs
+
 /-- no operation is placed before one that had already returned when it was called -/
 def RespectsRT (l : List HOp) : Prop := l.Pairwise fun a b => ¬ b.ret < a.call
 
@@ -88,33 +98,52 @@ def hintMatches (hint : List SEv) (e : Option WEv) : Bool :=
   | h :: _, some e => h == SEv.ofWEv e
   | _, _ => false
 
-/-- `linSearch fuel budget st pending hint acc` -/
-def linSearch : Nat → Nat → Rows → List HOp → List SEv → List HOp → Option (List HOp) × Nat
+/-- the recorded result shows that the operation changed nothing, whatever the state was: reads, lists,
+    rejected writes, rejected deletes. (A delete that returned success may or may not have removed the
+    resource — it is a branch point of the search, not a greedy step.) -/
+def readOnlyResult (o : HOp) : Bool :=
+  match o.res with
+  | .r _ => true
+  | .l _ => true
+  | .w r => r != .ok
+  | .d ok => !ok
+  | .unit => false
+
+/-- `linSearch strict fuel budget st pending hint acc`. In strict mode a committing operation is only
+    taken when its event is the next one of the hint (the commit order an observer saw), so that the
+    linearization found has the commits in the observed order; the free mode ignores the hint once it
+    stops matching. -/
+def linSearch (strict : Bool) : Nat → Nat → Rows → List HOp → List SEv → List HOp → Option (List HOp) × Nat
   | 0, b, _, _, _, _ => (none, b)
   | fuel + 1, b, st, pending, hint, acc =>
     if pending.isEmpty then (some acc.reverse, b)
     else if b = 0 then (none, 0)
     else
       let mins := pending.filter (isMinimal pending)
-      match mins.find? (fun o => let (st', r, _) := specStep st o.op; r == o.res && st' == st) with
-      | some o => linSearch fuel (b - 1) st (pending.erase o) hint (o :: acc)
+      match mins.find? (fun o => readOnlyResult o && (specStep st o.op).2.1 == o.res) with
+      | some o => linSearch strict fuel (b - 1) st (pending.erase o) hint (o :: acc)
       | none =>
         let cands := mins.filter fun o => (specStep st o.op).2.1 == o.res
         let (pref, other) := cands.partition fun o => hintMatches hint (specStep st o.op).2.2
-        (pref ++ other).foldl (fun (acc' : Option (List HOp) × Nat) o =>
+        let (muts, noop) := other.partition fun o => (specStep st o.op).2.2.isSome
+        (pref ++ noop ++ (if strict then [] else muts)).foldl (fun (acc' : Option (List HOp) × Nat) o =>
             match acc' with
             | (some l, b') => (some l, b')
             | (none, b') =>
               let (st', _, e) := specStep st o.op
-              let hint' := if hintMatches hint e then hint.drop 1 else []
-              linSearch fuel b' st' (pending.erase o) hint' (o :: acc))
+              let hint' := if e.isNone then hint else if hintMatches hint e then hint.drop 1 else []
+              linSearch strict fuel b' st' (pending.erase o) hint' (o :: acc))
           (none, b - 1)
 
 def searchBudget : Nat := 200000
 
-/-- the checker: search, then validate what the search produced -/
+/-- the checker: search (first following the hint strictly, then freely), then validate what the
+    search produced -/
 def linCheck (h : List HOp) (hint : List SEv) : Option (List HOp) :=
-  match (linSearch (h.length + 1) searchBudget [] h hint []).1 with
+  let found := match (linSearch true (h.length + 1) searchBudget [] h hint []).1 with
+    | some l => some l
+    | none => (linSearch false (h.length + 1) searchBudget [] h hint []).1
+  match found with
   | some l => if validLin h l then some l else none
   | none => none
 
@@ -162,7 +191,8 @@ def stripClosed (l : List SEv) : List SEv × Bool :=
   | _ => (l, false)
 
 /-- The stream is what the faithful model allows: the listing of the state after some prefix `p` of the
-    linearization (all of whose operations had been called before `WatchList` returned), EndOfSnapshot,
+    linearization (all of whose committing operations had been called before `WatchList` returned;
+    where the non-mutating ones sit in the linearization is immaterial), EndOfSnapshot,
     then the relevant events from some position `d ≤ p` on — all of them if the stream is complete,
     a prefix otherwise.  (`d < p` is the lagging-publisher behaviour; the property wants `d = p`.) -/
 def watchOK (lin : List HOp) (w : HWatch) : Bool :=
@@ -171,11 +201,15 @@ def watchOK (lin : List HOp) (w : HWatch) : Bool :=
   let events := eventsOf [] lin
   let (evs, closed) := stripClosed w.evs
   match splitAtEos evs with
-  | none => closed && evs.isEmpty     -- force-closed before the snapshot was fetched
+  | none =>
+    -- force-closed before the snapshot was fetched, or the harness left in the middle of the snapshot
+    (closed && evs.isEmpty) ||
+    (!w.complete && (List.range (n + 1)).any fun p =>
+      match states[p]? with | some st => evs.isPrefixOf (snapshotSeen w.q st) | none => false)
   | some (pre, post) =>
     (List.range (n + 1)).any fun p =>
       (match states[p]? with | some st => pre == snapshotSeen w.q st | none => false) &&
-      (lin.take p).all (fun o => o.call < w.openRet) &&
+      ((lin.zip events).take p).all (fun (o, e) => e.isNone || o.call < w.openRet) &&
       (List.range (p + 1)).any fun d =>
         let exp := ((events.drop d).filterMap id).filter (relevant w.q) |>.map SEv.ofWEv
         if w.complete && !closed then post == exp else post.isPrefixOf exp
